@@ -1022,6 +1022,7 @@ def c13(tier, seed):
                 s = case_seed(seed, prop, idx); idx += 1
                 args = ["--profile", prof, "--generic", "C13", "--seed", s, "--ops", ops, "--clock-jitter", rnd.choice([5, 50, 500]), "--purge-cb", 1, "--max-live-mb", 96]
                 if prof in ("zero", "general") and (vi + k) % 3 == 0: args += ["--threads", 1]
+                if (vi + k) % 2 == 1: args += ["--flip-options", 150]        # half of the cases also change options with mi_option_set in the middle of the history
                 env = dict(vec)
                 if vec.get("MIMALLOC_TARGET_SEGMENTS_PER_THREAD", "0") != "0":
                     # forced abandonment: live blocks may sit in segments the thread was made to abandon; they are visible through mi_abandoned_visit_blocks only
@@ -1042,6 +1043,7 @@ def c13(tier, seed):
     cov["purge_ranges_checked_against_live_blocks"] = core.sum_field(cases, "purge_ranges_checked")
     cov["virtual_clock_ms_advanced"] = core.sum_field(cases, "clock_ms")
     cov["profiles"] = {p: sum(1 for c in cases if c.meta["profile"] == p) for p in profiles}
+    cov["run_time_option_changes"] = core.sum_field(cases, "option_flips")
     return finish(prop, tier, seed, "exploration", v, cases, t0,
                   "a case = one option vector (a pairwise (thorough: 3-wise) covering array over 13 commit/purge/arena options, plus the complete cross of purge_delay {0,10} x purge_decommits x eager_commit x "
                   "{arena committed eagerly, arena committed lazily, no arena}) x one history profile of C01/C03/C04/C05/C12 x one build variant, with the "
